@@ -202,7 +202,7 @@ def gen(rng, tier):
                 elif r < 0.8:
                     lines.append("fail " + rng.choice(["refused", "reset-before", "close-before", "garbage"]))
                 else:
-                    lines.append("listener " + rng.choice(["ret", "panic", "abort"]))
+                    lines.append("listener " + rng.choice(["ret", "panic", "abort", "retarget", "mutate"]))
         else:
             # tr=keep: the RoundTripper forward.New chose is kept (what a caller gets who configures nothing)
             lines = ["cfg rht=3000 tr=%s up=%s" % (rng.choice(["own", "keep"]), rng.choice(UPS))]
@@ -217,7 +217,7 @@ def gen(rng, tier):
                 elif r < 0.9:
                     lines.append(gen_abort(rng))
                 else:
-                    lines.append("listener " + rng.choice(["ret", "panic", "abort"]))
+                    lines.append("listener " + rng.choice(["ret", "panic", "abort", "retarget", "mutate"]))
         yield lines
 
 
@@ -230,7 +230,7 @@ def exhaustive(tier):
                "abort s=200 n=5000 sent=100 seed=1 mode=cl rh=Content-Type:text/plain",
                "resp s=404 d=%s seed=9 mode=cl pre=103 rh=Content-Type:text/plain" % digest(9, 5000), "listener abort", "listener panic", "fail close-before"]
     kinds = ["fail refused", "fail reset-before", "fail close-before", "fail garbage", "fail client-cancel", "listener ret", "listener panic",
-             "listener abort", "abort s=200 n=5000 sent=100 seed=1 mode=cl rh=Content-Type:text/plain",
+             "listener abort", "listener retarget", "abort s=200 n=5000 sent=100 seed=1 mode=cl rh=Content-Type:text/plain",
              "resp s=200 d=%s seed=9 mode=chunked chunks=1,4096 rh=Content-Type:text/plain" % digest(9, 10000)]
     for a in kinds:
         for b in kinds:
